@@ -30,7 +30,7 @@ def cells(tier, seed):
 
 
 def explore_opts(params, tier):
-    return {"timeout_s": 5.0 if tier == "quick" else 120.0, "max_paths": 40, "norm_first": True, "path_budget_s": 120.0, "engine_opts": {}}
+    return {"timeout_s": 5.0 if tier == "quick" else 30.0, "max_paths": 40, "norm_first": True, "path_budget_s": 120.0, "engine_opts": {}}
 
 
 def describe(tier):
